@@ -49,6 +49,7 @@ fn metadata(n: usize, rng: &mut Rng) -> Node {
     Node::map(vec![(Node::u(674), Node::arr(strs))])
 }
 
+#[derive(Clone)]
 struct Case<'a> {
     f: &'a Fixture,
     tx: Vec<u8>,
@@ -321,6 +322,17 @@ fn variants<'a>(f: &'a Fixture, rng: &mut Rng) -> Vec<Case<'a>> {
             v.push(Case { f, tx: f.resign(&set_aux_with_hash(&f.tx_bytes, None)), variant: "aux-removed".into() });
         } else {
             v.push(Case { f, tx: f.resign(&set_aux_with_hash(&f.tx_bytes, Some(metadata(10, rng)))), variant: "aux-added:10".into() });
+        }
+    }
+    // the phase-2 validity flag set to false (a transaction as recorded in a block after a script
+    // failure): the fee and size rules apply to it exactly as to a valid one
+    for base in v.clone() {
+        if let Ok(it) = pv::cbor::parse(&base.tx) {
+            if it.major == 4 && it.children.len() == 4 && it.children[2].major == 7 && base.tx[it.children[2].start] == 0xf5 {
+                let mut t = base.tx.clone();
+                t[it.children[2].start] = 0xf4;
+                v.push(Case { f, tx: t, variant: format!("{}+valid=false", base.variant) });
+            }
         }
     }
     v
